@@ -75,7 +75,7 @@ def validate(pid):
         meta['ran'].append({'cmd': ' '.join(demo_cmd), 'when': 'with the change', 'exit': rc1, 'tail': o1[-1500:]})
         meta['demo_fails_with_change'] = rc1 != 0
         # regenerate the patch against the current HEAD (source files only)
-        rcd, diff = run(['git', 'diff', '--', '.', ':(exclude)*_test.go'], wt)
+        rcd, diff = run(['git', 'diff', 'HEAD', '--', '.', ':(exclude)*_test.go'], wt)
         return meta, diff, demos
     finally:
         subprocess.run(['git', '-C', '/repo', 'worktree', 'remove', '--force', wt], capture_output=True)
